@@ -30,6 +30,15 @@ def build_universe(rnd, n=60):
                      args=[('time', 'int', 5, None), ('surface_x', 'float', (15, 1)), ('surface_y', 'float', (2, 0))], destroyed=None))
     msgs.append(dict(conn='C', obj=(6, 2, 'wl_data_device'), name='enter',
                      args=[('serial', 'int', 1, None), ('surface', 'obj', (3, 1, 'wl_surface'), False), ('id', 'null', 'wl_data_offer')], destroyed=None))
+    # messages that create MORE than one object (eighth seeding round: `.new` looked at the first new id only); the
+    # objects differ from one another and from the target in id, generation and type
+    msgs.append(dict(conn='A', obj=(3, 0, 'wl_compositor'), name='create_pair',
+                     args=[('a', 'obj', (7, 0, 'wl_surface'), True), ('b', 'obj', (8, 1, 'xdg_surface'), True)], destroyed=None))
+    msgs.append(dict(conn='B', obj=(2, 0, 'my_widget'), name='frob',
+                     args=[('x', 'int', 1, None), ('id', 'obj', (4, 2, 'wl_buffer'), True), ('surface', 'obj', (5, 0, 'wl_seat'), False),
+                           ('callback', 'obj', (6, 1, 'wl_callback'), True)], destroyed=None))
+    msgs.append(dict(conn='C', obj=(1, 0, 'wl_display'), name='sync',
+                     args=[('callback', 'obj', (3, 25, 'wl_callback'), True), ('id', 'obj', (3, 26, 'wl_keyboard'), True)], destroyed=(5, 1, 'wl_shm')))
     return msgs
 
 
